@@ -300,6 +300,16 @@ def run(modname, tier, seed, replay_path=None):
         with ProcessPoolExecutor(max_workers=NCPU) as ex:
             results = list(ex.map(_worker, jobs))
         res = merge(results)
+        # generic release-build stage (thorough): part of the same workload, fresh seed, against the optimised build without
+        # debug assertions / overflow checks -- the build users ship. Modules that run their own release stage opt out.
+        if tier == "thorough" and getattr(mod, "GENERIC_REL", True):
+            try:
+                rel_sh = list(range(0, nshards, 4))
+                er = run_build_stage(modname, tier, seed + 7919, "rel", rel_sh, nshards, max(300, budget // 3))
+                res = _merge_extra(res, er)
+            except Exception:
+                res["inconclusive"].append("release-build stage exception: " + traceback.format_exc()[-1500:])
+                res["n_inconclusive"] += 1
         # optional extra stages (other builds, sanitizer replays...) implemented by the module
         extra = getattr(mod, "extra_stages", None)
         if extra:
@@ -404,7 +414,7 @@ def write_evidence(mod, tier, seed, res, wall, n_unlisted, inconclusive, listed,
             "known_findings_seen": [{"key": k, "n": n} for k, n in listed],
             "unlisted_violation_keys": [{"key": k, "n": n} for k, n in list(unlisted)[:100]],
             "inconclusive": inconclusive[:20],
-            "builds": ["chk"] + list(getattr(mod, "EXTRA_BUILDS", {}).get(tier, [])),
+            "builds": sorted(set(["chk"] + list(getattr(mod, "EXTRA_BUILDS", {}).get(tier, [])) + (["rel"] if tier == "thorough" else []))),
         }
     ev = {
         "property_id": pid,
